@@ -24,6 +24,9 @@
  * Observed: datagrams handed to coap_socket_send (type, mid, token), nack handler calls, the
  * return value of coap_send.  session->con_active is never read for the result line (it is
  * printed to stderr with NS_DEBUG=1 for debugging the tie only).
+ *   M  (server-side session) a multicast NON GET /r from the peer: the response is delayed through
+ *      the send queue;  Y  the leisure timer of that delayed response fires (coap_retransmit on
+ *      the is_mcast node) - the response datagram is reported as item Wm
  *   E  the next socket write fails with ENOBUFS (reported as item E<c|n><mid>.<tok>)
  * "W" mode (natural time): W<ms> advances the virtual clock and lets coap_io_prepare_epoll fire
  * whatever is due.
@@ -81,7 +84,9 @@ static void show_dgram_item(int sid, char tag, const uint8_t *data, size_t len) 
   unsigned tok = 0;
   if (tkl <= 8 && 4 + tkl <= len)
     for (unsigned i = 0; i < tkl; i++) tok = (tok << 8) | data[4 + i];
-  if (ty == 0 || ty == 1)
+  if (ty == 1 && tok == 0xee01)
+    item(sid, "Wm");              /* the (delayed) response to the driver's multicast request */
+  else if (ty == 0 || ty == 1)
     item(sid, "%c%c%u.%u", tag, ty == 0 ? 'c' : 'n', mid, tok);
   else
     item(sid, "%c%c%u", tag == 'T' ? 'W' : tag, ty == 2 ? 'a' : 'r', mid);
@@ -108,13 +113,14 @@ static coap_response_t on_resp(coap_session_t *s, const coap_pdu_t *sent, const 
   return COAP_RESPONSE_OK;
 }
 
-/* forced-timer mode: the k-th one-byte draw (the retransmission jitter of the k-th CON) is 8*k,
+/* forced-timer mode: the k-th one-byte draw (the retransmission jitter of the k-th CON) is 8*(k+1),
  * so that no two send-queue nodes are due at the same instant (coap_calc_timeout has 32 steps);
  * with the clock frozen nothing then fires by itself.  Everything else comes from vn_prng_fn. */
 static unsigned jitter_ctr;
 static int ns_prng(void *buf, size_t len) {
   if (len == 1) {
-    *(uint8_t *)buf = (uint8_t)(8 * jitter_ctr++);
+    *(uint8_t *)buf = (uint8_t)(8 * (jitter_ctr++ % 31) + 8);   /* 8, 16, .. 248: never 0 (a zero
+                                        leisure would send a delayed multicast response at once) */
     return 1;
   }
   return vn_prng_fn(buf, len);
@@ -144,7 +150,7 @@ static void fire_timer(coap_session_t *s, int mid) {
 static void do_case(void) {
   /* vtok[0]="ns" vtok[1]=variant vtok[2]=nsess vtok[3..]=cfgs, then ops */
   static unsigned long caseno = 0;
-  unsigned peer_mid = 0x8000;
+  unsigned peer_mid = 0xf000;   /* the peer's own ids: above everything the generator submits */
   nsess = atoi(vtok[2]);
   if (nsess < 1 || nsess > MAXS || vntok < 3 + nsess) { puts("ERROR bad case"); return; }
   vn_now = 1000;
@@ -219,11 +225,19 @@ static void do_case(void) {
       case 'S': {
         sscanf(comma + 1, "%c,%d,%d", &ty, &a, &b);
         /* a client session sends requests, a server-side session responses / notifications */
+        /* some variety that must not matter to the accounting: method / response code, a
+         * Uri-Path option, a payload (all derived from the message id) */
+        static const coap_pdu_code_t req_code[3] = {COAP_REQUEST_CODE_GET, COAP_REQUEST_CODE_POST,
+                                                    COAP_REQUEST_CODE_PUT};
+        static const coap_pdu_code_t rsp_code[3] = {COAP_RESPONSE_CODE_CONTENT, COAP_RESPONSE_CODE_CHANGED,
+                                                    COAP_RESPONSE_CODE_NOT_FOUND};
         coap_pdu_t *p = coap_pdu_init(ty == 'c' ? COAP_MESSAGE_CON : COAP_MESSAGE_NON,
-                                      is_server[sid] ? COAP_RESPONSE_CODE_CONTENT
-                                      : COAP_REQUEST_CODE_GET, (coap_mid_t)a, 64);
+                                      is_server[sid] ? rsp_code[a % 3] : req_code[a % 3],
+                                      (coap_mid_t)a, 64);
         uint8_t tk[2] = {(uint8_t)(b >> 8), (uint8_t)b};
         coap_add_token(p, 2, tk);
+        if (!is_server[sid] && (a & 2)) coap_add_option(p, COAP_OPTION_URI_PATH, 1, (const uint8_t *)"r");
+        if (a & 1) coap_add_data(p, 3, (const uint8_t *)"abc");
         ret = coap_send(s, p) == COAP_INVALID_MID ? "X" : "A";
         break;
       }
@@ -237,9 +251,8 @@ static void do_case(void) {
       case 'P': {
         unsigned pm = 0;
         a = 0;
-        if (sscanf(comma + 1, "%d,%u", &a, &pm) == 2) peer_mid = pm;   /* peer's own message id */
-        else peer_mid++;
-        uint8_t d[8] = {0x52, 0x45, (uint8_t)(peer_mid >> 8), (uint8_t)peer_mid,
+        if (sscanf(comma + 1, "%d,%u", &a, &pm) != 2) pm = ++peer_mid;   /* peer's own message id */
+        uint8_t d[8] = {0x52, 0x45, (uint8_t)(pm >> 8), (uint8_t)pm,
                         (uint8_t)(a >> 8), (uint8_t)a, 0xff, 'x'};
         if (!dead[sid]) inject(sid, d, 8);
         break;
@@ -247,6 +260,28 @@ static void do_case(void) {
       case 'T':
         a = atoi(comma + 1);
         if (!dead[sid]) fire_timer(s, a);
+        break;
+      case 'M': {          /* a multicast NON GET /r from the session's peer (server-side sessions):
+                              the response is delayed through the send queue (leisure) */
+        coap_address_t grp;
+        peer_mid++;
+        uint8_t d[8] = {0x52, 0x01, (uint8_t)(peer_mid >> 8), (uint8_t)peer_mid, 0xee, 0x01, 0xb1, 'r'};
+        if (is_server[sid] && !dead[sid]) {
+          vn_addr4(&grp, 0xe00001bbu, ntohs(srv_ep->bind_addr.addr.sin.sin_port));
+          vn_inject_ep(ctx, srv_ep, &peer_addr[sid], &grp, d, 8);
+        }
+        break;
+      }
+      case 'Y':            /* the leisure timer of the session's delayed multicast response fires */
+        if (is_server[sid] && !dead[sid]) {
+          coap_queue_t *n = NULL, *it;
+          coap_lock_lock(ctx, break);
+          for (it = ctx->sendqueue; it; it = it->next)
+            if (it->session == s && it->is_mcast) break;
+          if (it) coap_remove_from_queue(&ctx->sendqueue, s, it->id, &n);
+          if (n) coap_retransmit(ctx, n);
+          coap_lock_unlock(ctx);
+        }
         break;
       case 'U':
         if (!dead[sid]) {
